@@ -6,6 +6,7 @@ import (
 	"context"
 	"crypto/sha256"
 	"encoding/hex"
+	"encoding/json"
 	"fmt"
 	"math/rand"
 	"runtime/debug"
@@ -117,6 +118,48 @@ func (r *runner) execOp(op *Op, phase string) {
 	r.w.mu.Lock()
 	r.started[op.ID] = op
 	r.w.mu.Unlock()
+	if op.Kind == KSleep {
+		time.Sleep(time.Duration(op.SleepMs) * time.Millisecond)
+		res.Out = Outcome{Class: "ok", Invoke: r.w.Event(), Return: r.w.Event()}
+		r.w.mu.Lock()
+		r.results = append(r.results, res)
+		r.byID[op.ID] = res
+		r.w.mu.Unlock()
+		return
+	}
+	if op.Kind == KRaw && r.worker != nil {
+		// administrative requests refer to ids handed out by earlier answers
+		cp := *op.Raw
+		r.worker.mu.Lock()
+		for k, v := range r.worker.vars {
+			cp.Path = strings.ReplaceAll(cp.Path, "$"+k, v)
+			cp.Body = strings.ReplaceAll(cp.Body, "$"+k, v)
+		}
+		r.worker.mu.Unlock()
+		r.w.mu.Lock()
+		r.w.adminInFlight++
+		r.w.mu.Unlock()
+		resp := r.w.Do(r.curInc(), op.ID, cp)
+		r.w.mu.Lock()
+		r.w.adminInFlight--
+		r.w.mu.Unlock()
+		res.Out = ParseOutcome(op, resp, resp.Hit)
+		if op.Capture != "" && op.Capture != "reset" && res.Out.Class == "ok" {
+			var d struct {
+				ID string `json:"id"`
+			}
+			_ = json.Unmarshal(res.Out.Data, &d)
+			r.worker.mu.Lock()
+			r.worker.vars[op.Capture] = d.ID
+			r.worker.mu.Unlock()
+		}
+		r.w.mu.Lock()
+		r.results = append(r.results, res)
+		r.byID[op.ID] = res
+		r.doneLines = append(r.doneLines, fmt.Sprintf("done %s %s %s -> %s %d %s", op.ID, cp.Method, maskID(cp.Path, r.worker.vars["pipeline"]), res.Out.Class, res.Out.Status, res.Out.Code))
+		r.w.mu.Unlock()
+		return
+	}
 	if op.Kind == KImport && op.Remainder {
 		// the client resumes after the last log the destination holds
 		max := 0
@@ -161,6 +204,7 @@ func (r *runner) execOp(op *Op, phase string) {
 func (r *runner) runPhase(phase string, clients [][]Op, explore *Explore) bool {
 	r.phase = phase
 	r.w.explore = explore
+	r.w.quiet = false
 	done := 0
 	total := 0
 	for ci, ops := range clients {
@@ -192,14 +236,30 @@ func (r *runner) runPhase(phase string, clients [][]Op, explore *Explore) bool {
 		maxSteps = 4000
 	}
 	idle := 0
-	quantum := 50 * time.Millisecond
+	idleTime := time.Duration(0)
+	quantum := 37 * time.Millisecond
+	doneAt := time.Duration(-1)
 	for r.w.steps < maxSteps {
 		if r.w.harness != nil {
 			return true
 		}
+		if r.worker != nil && finished() {
+			// the clients are done: give the worker a bounded amount of simulated time to catch up
+			if doneAt < 0 {
+				doneAt = r.w.simTime
+				// faults and deliberate delays stop here: from now on the default policy runs whatever is
+				// runnable, and only idle time counts against the liveness budget
+				r.w.explore = nil
+				r.w.quiet = true
+			}
+			if r.worker.quiescent(r) || r.w.simTime-doneAt > r.worker.catchUpBudget() {
+				return true
+			}
+		}
 		if r.w.Step() {
 			idle = 0
-			quantum = 50 * time.Millisecond
+			idleTime = 0
+			quantum = 37 * time.Millisecond
 			synctest.Wait()
 			r.afterStep()
 			continue
@@ -211,7 +271,8 @@ func (r *runner) runPhase(phase string, clients [][]Op, explore *Explore) bool {
 		}
 		// nothing runnable: let simulated time pass (timers: retries, pipelines)
 		idle++
-		if idle > 60 {
+		idleTime += quantum
+		if idle > 60 || (r.worker != nil && idleTime > r.worker.catchUpBudget()) {
 			return finished()
 		}
 		r.w.sleep(quantum)
@@ -227,6 +288,10 @@ func (r *runner) afterStep() {
 	r.w.mu.Lock()
 	lines := r.doneLines
 	r.doneLines = nil
+	for _, k := range r.w.selfWoken {
+		lines = append(lines, "cancelled "+k)
+	}
+	r.w.selfWoken = nil
 	r.w.mu.Unlock()
 	sort.Strings(lines)
 	for _, l := range lines {
@@ -252,6 +317,9 @@ func (r *runner) afterStep() {
 		if r.has("import-exclusive") {
 			r.addV(checkImportInterleave(r, rec)...)
 		}
+	}
+	if r.worker != nil && r.has("replication") {
+		r.addV(r.worker.checkStep(r, recs)...)
 	}
 }
 
@@ -360,6 +428,9 @@ func runInBubble(t *testing.T, sc *Scenario, plan *Plan, ex *ExploreCfg, res *Ru
 		r.inc = ninc
 		w.mu.Unlock()
 		incs = append(incs, ninc)
+		if r.worker != nil {
+			r.worker.start(r)
+		}
 	}
 	if plan != nil {
 		w.SetPlan(*plan)
@@ -423,9 +494,6 @@ func runInBubble(t *testing.T, sc *Scenario, plan *Plan, ex *ExploreCfg, res *Ru
 		}
 	}
 	r.finalChecks()
-	if r.worker != nil {
-		r.worker.stop(r)
-	}
 
 	res.Violations = dedupViolations(r.viol)
 	res.post = r.post
@@ -458,6 +526,10 @@ func runInBubble(t *testing.T, sc *Scenario, plan *Plan, ex *ExploreCfg, res *Ru
 	w.mu.Unlock()
 
 	w.Shutdown()
+	if r.worker != nil {
+		r.worker.stop(r)
+		synctest.Wait()
+	}
 	for _, inc := range incs {
 		_ = inc.sqlDB.Close()
 	}
@@ -509,6 +581,9 @@ func (r *runner) finalChecks() {
 	}
 	if r.has("no-5xx-without-fault") {
 		r.addV(checkNo5xx(r)...)
+	}
+	if r.has("replication") {
+		r.addV(checkReplicationFinal(r)...)
 	}
 	if r.has("no-leaked-locks") {
 		r.addV(checkNoLeaks(r)...)
@@ -571,4 +646,11 @@ func checkNoLeaks(r *runner) []Violation {
 		return nil
 	}
 	return []Violation{{r.sc.Property, "no-session-or-lock-held-after-response", fmt.Sprintf("after every request was answered: %d row locks, advisory locks %v, %d open transactions; parked=%v", rows, adv, open, r.w.ParkedKeys())}}
+}
+
+func maskID(path, id string) string {
+	if id == "" {
+		return path
+	}
+	return strings.ReplaceAll(path, id, "$pipeline")
 }
